@@ -198,6 +198,9 @@ func vScenarioC10(rc *runCtx) {
 	T := time.Duration(cfg.timeout) * time.Second
 	x := newXferWorld(rc, o)
 	w := rc.w
+	if x.ccKeys = !enumerated && tp.Bool("c10.cckeys", 150); x.ccKeys {
+		rc.fault("keys-as-tmux-control-mode-commands")
+	}
 	armed := vArmAfterCfg(x)
 	del := strings.HasSuffix(how, "delete")
 	var stopAt time.Duration = -1
@@ -506,6 +509,9 @@ func vScenarioC18(rc *runCtx) {
 	T := time.Duration(cfg.timeout) * time.Second
 	x := newXferWorld(rc, o)
 	w := rc.w
+	if x.ccKeys = tp.Bool("c18.cckeys", 150); x.ccKeys {
+		rc.fault("keys-as-tmux-control-mode-commands")
+	}
 	armed := vArmAfterCfg(x)
 	cycles := 1 + tp.Pick("c18.cycles", 5, 2, 1)
 	// pause length relative to the timeout
